@@ -3,7 +3,9 @@ import PydjinniModel.Gen.Ident
 # Specification of identifier conversion (C02: "names follow the configured identifier style")
 
 `convertSpec st s out`: `out` is the configured prefix followed by a body that has the *shape* of the style and
-carries exactly the letters and digits of `s` (case-folded; `_` and `-` are separators).
+carries exactly the letters and digits of `s` (case-folded; `_` and `-` are separators).  The shape pins the word structure:
+camelCase / PascalCase have capital letters exactly at the starts of the `_`-separated words (and nowhere else — a digit does
+not start a word), the separator styles keep every separator in place.
 -/
 namespace Pydjinni.Gen
 
@@ -16,14 +18,35 @@ def headOk (p : Char → Bool) : List Char → Bool
   | [] => true
   | c :: _ => p c
 
+/-- For every character of the IDL identifier that is not `_`: does it start a word?  Words are the `_`-separated pieces;
+    `start` says whether the next such character does (the first word of `camelCase` is written like the inside of a word). -/
+def wordStarts (start : Bool) : List Char → List Bool
+  | [] => []
+  | c :: cs => if c = '_' then wordStarts true cs else start :: wordStarts false cs
+
+/-- Capital letters exactly where the words start: position by position, a character at a word start is not a lower-case
+    letter and every other character is not an upper-case letter (`vec3d ↦ Vec3d`, not `Vec3D`; `HTTPReq ↦ Httpreq`);
+    as many characters as the identifier has outside its separators. -/
+def capsAt : List Bool → List Char → Bool
+  | [], [] => true
+  | st :: sts, c :: cs => (if st then !isLowerC c else !isUpperC c) && capsAt sts cs
+  | _, _ => false
+
+/-- a character up to case, every separator read as `_` -/
+def foldSep (c : Char) : Char := if isSep c then '_' else lo c
+
+/-- the separator styles keep the identifier character by character: same length, a separator exactly where the identifier
+    has one (`a__b ↦ a__b`, `e_ ↦ E_`), every other character changed in case only -/
+def sameSkeleton (s b : List Char) : Bool := b.map foldSep == s.map foldSep
+
 /-- the shape of each identifier style -/
 def styleShape : Case → List Char → List Char → Bool
   | .none, s, b => b == s
-  | .snake, _, b => b.all (fun c => !isUpperC c)
-  | .train, _, b => b.all (fun c => !isLowerC c)
-  | .kebab, _, b => b.all (fun c => !isUpperC c && c != '_')
-  | .camel, _, b => b.all (fun c => c != '_') && headOk (fun c => !isUpperC c) b
-  | .pascal, _, b => b.all (fun c => c != '_') && headOk (fun c => !isLowerC c) b
+  | .snake, s, b => b.all (fun c => !isUpperC c) && sameSkeleton s b
+  | .train, s, b => b.all (fun c => !isLowerC c) && sameSkeleton s b
+  | .kebab, s, b => b.all (fun c => !isUpperC c && c != '_') && sameSkeleton s b
+  | .camel, s, b => b.all (fun c => c != '_') && headOk (fun c => !isUpperC c) b && capsAt (wordStarts false s) b
+  | .pascal, s, b => b.all (fun c => c != '_') && headOk (fun c => !isLowerC c) b && capsAt (wordStarts true s) b
 
 def convertSpec (st : Style) (s out : List Char) : Bool :=
   (pfxL st).isPrefixOf out &&
